@@ -458,7 +458,8 @@ def run(tier, is_known):
     if thorough:
         for r1, r2, r3 in itertools.permutations(COVER, 3):
             for ps in itertools.permutations(slots_small, 3):
-                items.append((5, "DENY", tuple(zip(ps, (r1, r2, r3)))))
+                for implicit in ("DENY", "PERMIT"):
+                    items.append((5, implicit, tuple(zip(ps, (r1, r2, r3)))))
         for r1, r2 in itertools.permutations(COVER, 2):
             for p1, p2 in itertools.permutations([0, 11, 23], 2):
                 items.append((25, "PERMIT", ((p1, r1), (p2, r2))))
@@ -483,7 +484,7 @@ def run(tier, is_known):
     # operation sequences
     per = []
     states = trans = 0
-    for mode, depth in (("api", 4 if thorough else 3), ("req", 3 if thorough else 2), ("act", 3 if thorough else 2)):
+    for mode, depth in (("api", 5 if thorough else 3), ("req", 4 if thorough else 2), ("act", 4 if thorough else 2)):
         ad = AclOps(mode)
         r = engine.bfs(ad, depth, state_budget=200000, time_budget=1200 if thorough else 40, is_known=is_known)
         viols += r.violations
